@@ -1,8 +1,5 @@
 (* C02 proofs: the auto-escaping invariant of the reference interpreter run with esc = true. *)
-From MJ Require Import Common.Base Lang.Syntax Lang.Meta Lang.Interp C02.Spec.
-
-Lemma bind_ok {A B} (o : outcome A) (f : A -> outcome B) r : bind o f = Ok r -> exists a, o = Ok a /\ f a = Ok r.
-Proof. destruct o; cbn; intros H; try discriminate. eauto. Qed.
+From MJ Require Import Common.Base Lang.Syntax Lang.Meta Lang.Interp C02.Spec C02.Out.
 
 (* ---- clean ---- *)
 Lemma clean_app a b : clean (a ++ b) = clean a && clean b.
@@ -94,6 +91,85 @@ Qed.
 Lemma range_list_good f : forall i n, forallb good_value (range_list f i n) = true.
 Proof. induction f as [|f IH]; intros i n; cbn [range_list]; [reflexivity|]. destruct (i <? n); cbn [forallb good_value andb]; auto. Qed.
 
+
+(* ---- the safety-aware filters ---- *)
+Lemma clean_cons c s : clean (c :: s) = negb (is_meta c) && clean s.
+Proof. reflexivity. Qed.
+
+Lemma digits_clean fuel : forall z acc, 0 <= z -> clean acc = true -> clean (digits fuel z acc) = true.
+Proof.
+  induction fuel as [|fuel IH]; intros z acc Hz Ha; cbn [digits]; [exact Ha|].
+  destruct (z <? 10) eqn:E.
+  - rewrite clean_cons, Ha. unfold is_meta. lia.
+  - apply IH; [apply Z.div_pos; lia|]. rewrite clean_cons, Ha.
+    pose proof (Z.mod_pos_bound z 10 ltac:(lia)). unfold is_meta. lia.
+Qed.
+
+Lemma clean_show_int z : clean (show_int z) = true.
+Proof.
+  unfold show_int. destruct (z <? 0) eqn:E.
+  - rewrite clean_cons. rewrite digits_clean; [reflexivity|lia|reflexivity].
+  - apply digits_clean; [lia|reflexivity].
+Qed.
+
+Lemma clean_replace_go needle rep : clean rep = true -> forall h skip, clean h = true -> clean (replace_go needle rep skip h) = true.
+Proof.
+  intros Hr. induction h as [|ch r IH]; intros skip Hh; cbn [replace_go]; [reflexivity|].
+  rewrite clean_cons in Hh. apply andb_true_iff in Hh as [Hc Hh].
+  destruct skip; [|auto]. destruct (prefix_b needle (ch :: r)).
+  - rewrite clean_app, Hr. cbn [andb]. auto.
+  - rewrite clean_cons, Hc. cbn [andb]. auto.
+Qed.
+
+Lemma clean_replace_s h needle rep : clean h = true -> clean rep = true -> clean (replace_s h needle rep) = true.
+Proof.
+  intros Hh Hr. unfold replace_s. destruct needle as [|n0 nd]; [|now apply clean_replace_go].
+  rewrite clean_app, Hr. cbn [andb]. induction h as [|ch r IH]; cbn [flat_map]; [reflexivity|].
+  rewrite clean_cons in Hh. apply andb_true_iff in Hh as [Hc Hh]. change (ch :: rep ++ flat_map (fun ch0 => ch0 :: rep) r) with ((ch :: rep) ++ flat_map (fun ch0 => ch0 :: rep) r).
+  rewrite clean_app, clean_cons, Hc, Hr. cbn [andb]. auto.
+Qed.
+
+Lemma clean_join_with sep l : clean sep = true -> forallb clean l = true -> clean (join_with sep l) = true.
+Proof.
+  intros Hs. induction l as [|x r IH]; cbn [join_with forallb]; [reflexivity|]. intros H. apply andb_true_iff in H as [Hx Hr].
+  destruct r as [|y r']; [exact Hx|]. rewrite !clean_app, Hx, Hs. cbn [andb]. apply IH. exact Hr.
+Qed.
+
+Lemma clean_printf conv : forall fmt args r, clean fmt = true -> (forall a, In a args -> clean (conv a) = true) ->
+  printf_s conv fmt args = Some r -> clean r = true.
+Proof.
+  assert (Hmap : forall (o : option (list Z)) (pre : list Z) r, clean pre = true ->
+            (forall x, o = Some x -> clean x = true) -> option_map (app pre) o = Some r -> clean r = true).
+  { intros o pre r Hp Ho H. destruct o as [x|]; [|discriminate]. cbn in H. inversion H; subst. rewrite clean_app, Hp. cbn [andb]. now apply Ho. }
+  fix IH 1. intros fmt args r Hf Ha H. destruct fmt as [|c1 fmt1]; [cbn in H; inversion H; reflexivity|].
+  rewrite clean_cons in Hf. apply andb_true_iff in Hf as [Hc1 Hf1].
+  assert (Hlit : option_map (cons c1) (printf_s conv fmt1 args) = Some r -> clean r = true).
+  { intros H'. apply (Hmap (printf_s conv fmt1 args) [c1] r); [rewrite clean_cons, Hc1; reflexivity| |exact H'].
+    intros x Hx. exact (IH fmt1 args x Hf1 Ha Hx). }
+  destruct (c1 =? 37) eqn:E37.
+  - assert (c1 = 37) by lia. subst c1. destruct fmt1 as [|c2 fmt2]; [cbn in H; discriminate|].
+    rewrite clean_cons in Hf1. apply andb_true_iff in Hf1 as [Hc2 Hf2].
+    destruct (c2 =? 37) eqn:E2; [|destruct (c2 =? 115) eqn:E3].
+    + assert (c2 = 37) by lia. subst c2. cbn [printf_s] in H.
+      apply (Hmap (printf_s conv fmt2 args) [37] r); [reflexivity| |exact H]. intros x Hx. exact (IH fmt2 args x Hf2 Ha Hx).
+    + assert (c2 = 115) by lia. subst c2. cbn [printf_s] in H. destruct args as [|a args']; [discriminate|].
+      apply (Hmap (printf_s conv fmt2 args') (conv a) r); [apply Ha; now left| |exact H].
+      intros x Hx. apply (IH fmt2 args' x Hf2); [|exact Hx]. intros a' Hin. apply Ha. now right.
+    + exfalso. revert H. cbn [printf_s].
+      destruct c2 as [|p|p]; try discriminate.
+      do 7 (try (destruct p as [p|p|])); try discriminate; cbn in E2, E3; discriminate.
+  - apply Hlit. revert H. cbn [printf_s].
+    destruct c1 as [|p|p]; try (intros H; exact H).
+    do 7 (try (destruct p as [p|p|])); try (intros H; exact H); cbn in E37; discriminate.
+Qed.
+
+Lemma str_input_good m v i : str_input m v = Ok i -> good_value v = true -> clean (fmt_in i) = true /\ (fst i = true -> clean (snd i) = true).
+Proof.
+  unfold str_input. destruct (u_strictish m && is_strict_undef v); [discriminate|]. intros H Hv. inversion H; subst. clear H.
+  unfold fmt_in. destruct v as [| | |b|z|sf t|l|mc cl|j n|g]; cbn [fst snd]; try (split; [apply clean_html_escape|discriminate]).
+  destruct sf; cbn [good_value] in Hv; split; auto; [apply clean_html_escape|discriminate].
+Qed.
+
 Lemma do_filter_good m f v args r :
   (f =? F_safe) = false -> good_value v = true -> forallb good_value args = true ->
   do_filter m true f v args = Ok r -> good_value r = true.
@@ -118,6 +194,62 @@ Proof.
   destruct (f =? F_last).
   { destruct v as [| | |b|z|sf s|l|mc cl|i n|g]; try discriminate. intros H; inversion H; subst. cbn [good_value] in Hv.
     destruct (rev l) as [|x r'] eqn:E; [reflexivity|]. apply (forallb_In good_value l x Hv). apply in_rev. rewrite E. now left. }
+  destruct (f =? F_replace).
+  { intros H. apply bind_ok in H as (vi & Ev & H). destruct args as [|a1 rest]; [discriminate|].
+    cbn [forallb] in Ha. apply andb_true_iff in Ha as [Ha1 Ha].
+    apply bind_ok in H as (fi & Ef & H). destruct rest as [|a2 rest2]; [discriminate|].
+    cbn [forallb] in Ha. apply andb_true_iff in Ha as [Ha2 Ha].
+    apply bind_ok in H as (ti & Et & H). destruct rest2; [|discriminate].
+    destruct (true && (fst vi || fst fi || fst ti)); inversion H; subst; [|reflexivity].
+    cbn [good_value]. apply clean_replace_s; [exact (proj1 (str_input_good _ _ _ Ev Hv))|exact (proj1 (str_input_good _ _ _ Et Ha2))]. }
+  destruct (f =? F_join).
+  { assert (Hitems : forall items, match v with
+              | VList l => Ok l
+              | VStr _ s => Ok (map (fun ch => VStr false [ch]) s)
+              | VUndef | VSilent | VNone => Ok []
+              | _ => Err E_InvalidOperation
+              end = Ok items -> forallb good_value items = true).
+    { intros items. destruct v as [| | |b|z|sf t|l|mc cl|j n|g]; intros E; inversion E; subst; auto.
+      clear. induction t; cbn; auto. }
+    assert (Hrend : forall items, forallb good_value items = true -> forallb clean (map (render_value true) items) = true).
+    { induction items as [|x r' IH]; cbn [map forallb]; auto. intros E. apply andb_true_iff in E as [E1 E2]. now rewrite good_render, IH. }
+    assert (Hj : forall a, good_value a = true ->
+              forall j, match a with
+                        | VUndef | VSilent | VNone => None
+                        | VStr b s => Some (b, s)
+                        | _ => Some (false, show a)
+                        end = Some j -> clean (fmt_in j) = true /\ (fst j = true -> clean (snd j) = true)).
+    { intros a Hga j. unfold fmt_in. destruct a as [| | |b|z|sf t|l|mc cl|i n|g]; intros E; inversion E; subst; cbn [fst snd];
+        try (split; [apply clean_html_escape|discriminate]).
+      destruct sf; cbn [good_value] in Hga; split; auto; [apply clean_html_escape|discriminate]. }
+    destruct args as [|a [|a' rest]]; try discriminate.
+    - intros H. apply bind_ok in H as (items & Ei & H). cbn [negb] in H. pose proof (Hitems _ Ei) as Hgi.
+      destruct (existsb is_safe_v items); inversion H; subst; [|reflexivity].
+      cbn [good_value]. apply clean_join_with; [reflexivity|auto].
+    - cbn [forallb] in Ha. apply andb_true_iff in Ha as [Hga _].
+      intros H. apply bind_ok in H as (items & Ei & H). cbn [negb] in H. pose proof (Hitems _ Ei) as Hgi.
+      destruct (match a with
+                | VUndef | VSilent | VNone => None
+                | VStr b s => Some (b, s)
+                | _ => Some (false, show a)
+                end) as [j|] eqn:Ej.
+      + destruct (Hj _ Hga _ Ej) as [Hj1 Hj2]. destruct (fst j) eqn:Efj.
+        * inversion H; subst. cbn [good_value]. apply clean_join_with; auto.
+        * destruct (existsb is_safe_v items); inversion H; subst; [|reflexivity]. cbn [good_value]. apply clean_join_with; auto.
+      + destruct (existsb is_safe_v items); inversion H; subst; [|reflexivity]. cbn [good_value]. apply clean_join_with; [reflexivity|auto]. }
+  destruct (f =? F_format).
+  { destruct v as [| | |b|z|sf t|l|mc cl|j n|g]; try discriminate.
+    destruct (printf_s _ t args) as [r0|] eqn:Ep; [|discriminate]. intros H; inversion H; subst.
+    destruct sf; [|reflexivity]. cbn [good_value] in *. eapply clean_printf; [exact Hv| |exact Ep].
+    intros a Hin. pose proof (forallb_In _ _ _ Ha Hin) as Hga.
+    destruct a as [| | |b|z|sf t'|l|mc cl|j n|g]; try apply clean_html_escape.
+    - destruct b; reflexivity.
+    - apply clean_show_int.
+    - destruct sf; [exact Hga|apply clean_html_escape]. }
+  destruct (f =? F_list).
+  { destruct v as [| | |b|z|sf t|l|mc cl|j n|g]; try discriminate; try (intros H; inversion H; subst; auto; fail).
+    - destruct (u_strictish m); intros H; inversion H; reflexivity.
+    - intros H; inversion H; subst. cbn [good_value]. clear. induction t; cbn; auto. }
   discriminate.
 Qed.
 (* ---- the invariant on states ---- *)
@@ -617,110 +749,6 @@ Proof. reflexivity. Qed.
 Lemma escape_then_print m esc s args : exists v, do_filter m esc F_escape (VStr false s) args = Ok v /\ render_value true v = html_escape s.
 Proof. eexists. split; reflexivity. Qed.
 
-(* ---- evaluating an expression never writes to the current output buffer ---- *)
-Definition ev_out (ev : st -> expr -> outcome (value * st)) : Prop :=
-  forall s e v s', ev s e = Ok (v, s') -> s_out s' = s_out s.
-
-Lemma store_out s x v : s_out (store s x v) = s_out s.
-Proof. unfold store. destruct (s_env s); reflexivity. Qed.
-
-Lemma lookup_out c s x v s' : lookup c s x = (v, s') -> s_out s' = s_out s.
-Proof. unfold lookup. destruct (load c (s_clos s) (s_env s) x) as [w asked]. intros H; inversion H; subst. destruct asked; reflexivity. Qed.
-
-Lemma map_eval_out ev : ev_out ev -> forall l s vs s', map_eval ev s l = Ok (vs, s') -> s_out s' = s_out s.
-Proof.
-  intros Hev. induction l as [|x r IH]; intros s vs s' H.
-  - cbn in H. inversion H; subst. auto.
-  - change (map_eval ev s (x :: r)) with (bind (ev s x) (fun '(v, s1) => bind (map_eval ev s1 r) (fun '(vs, s2) => Ok (v :: vs, s2)))) in H.
-    apply bind_ok in H as ([v s1] & E1 & H). apply bind_ok in H as ([vs1 s2] & E2 & H). inversion H; subst.
-    rewrite (IH _ _ _ E2). eapply Hev; eauto.
-Qed.
-
-Lemma map_eval_kw_out ev : ev_out ev -> forall l s kvs s', map_eval_kw ev s l = Ok (kvs, s') -> s_out s' = s_out s.
-Proof.
-  intros Hev. induction l as [|[k x] r IH]; intros s kvs s' H.
-  - cbn in H. inversion H; subst. auto.
-  - change (map_eval_kw ev s ((k, x) :: r)) with (bind (ev s x) (fun '(v, s1) => bind (map_eval_kw ev s1 r) (fun '(kv, s2) => Ok ((k, v) :: kv, s2)))) in H.
-    apply bind_ok in H as ([v s1] & E1 & H). apply bind_ok in H as ([vs1 s2] & E2 & H). inversion H; subst.
-    rewrite (IH _ _ _ E2). eapply Hev; eauto.
-Qed.
-
-Lemma cmp_chain_out m ev : ev_out ev -> forall l left s v s', cmp_chain m ev left s l = Ok (v, s') -> s_out s' = s_out s.
-Proof.
-  intros Hev. induction l as [|[op x] r IH]; intros left s v s' H.
-  - cbn in H. inversion H; subst. auto.
-  - change (cmp_chain m ev left s ((op, x) :: r)) with
-      (bind (ev s x) (fun '(y, s2) => bind (do_cmp m op left y) (fun b =>
-         match r with [] => Ok (VBool b, s2) | _ => if b then cmp_chain m ev y s2 r else Ok (VBool false, s2) end))) in H.
-    apply bind_ok in H as ([y s2] & E1 & H). apply bind_ok in H as (b & E2 & H). pose proof (Hev _ _ _ _ E1) as Ho.
-    destruct r as [|p r']; [inversion H; subst; auto|]. destruct b; [rewrite (IH _ _ _ _ H); auto|inversion H; subst; auto].
-Qed.
-
-Lemma store_args_out ev defaults : ev_out ev -> forall l s s', store_args ev defaults s l = Ok s' -> s_out s' = s_out s.
-Proof.
-  intros Hev. induction l as [|[p v] r IH]; intros s s' H.
-  - cbn in H. inversion H; subst; auto.
-  - change (store_args ev defaults s ((p, v) :: r)) with
-      (match is_undef v, assoc p defaults with
-       | true, Some d => bind (ev s d) (fun '(dv, s1) => store_args ev defaults (store s1 p dv) r)
-       | _, _ => store_args ev defaults (store s p v) r
-       end) in H.
-    destruct (is_undef v); [destruct (assoc p defaults) as [d|]|].
-    + apply bind_ok in H as ([dv s1] & E1 & H). rewrite (IH _ _ H), store_out. eapply Hev; eauto.
-    + rewrite (IH _ _ H). apply store_out.
-    + rewrite (IH _ _ H). apply store_out.
-Qed.
-
-Lemma call_macro_out c fuel esc s mc cl args kw v s' : call_macro c fuel esc s mc cl args kw = Ok (v, s') -> s_out s' = s_out s.
-Proof.
-  destruct fuel as [|fuel]; simpl; [discriminate|]. intros H.
-  destruct (Nat.ltb _ _); [discriminate|]. apply bind_ok in H as (bound & E1 & H).
-  match type of H with (if ?b then _ else _) = _ => destruct b end; [discriminate|].
-  apply bind_ok in H as (s1 & E2 & H). apply bind_ok in H as ([sg s2] & E3 & H). inversion H; subst. reflexivity.
-Qed.
-
-Lemma eval_out c esc : forall fuel, ev_out (eval c fuel esc).
-Proof.
-  induction fuel as [|fuel Hev]; intros s e v s' H; [simpl in H; discriminate|].
-  destruct e as [l|x|items|a|a|op a b|a rest|a b|a b|cnd t f|a i|a attr|f a args|t a args neg|f args kwargs]; simpl in H.
-  - destruct l; inversion H; subst; auto.
-  - destruct (lookup c s x) as [w s1] eqn:El. inversion H; subst. eapply lookup_out; eauto.
-  - apply bind_ok in H as ([vs s1] & E1 & H). inversion H; subst. eapply map_eval_out; eauto.
-  - apply bind_ok in H as ([w s1] & E1 & H). destruct w; try discriminate. inversion H; subst. eapply Hev; eauto.
-  - apply bind_ok in H as ([w s1] & E1 & H). apply bind_ok in H as (b & _ & H). inversion H; subst. eapply Hev; eauto.
-  - apply bind_ok in H as ([x s1] & E1 & H). apply bind_ok in H as ([y s2] & E2 & H). apply bind_ok in H as (u & _ & H).
-    apply bind_ok in H as (r & E3 & H). inversion H; subst. rewrite (Hev _ _ _ _ E2). eapply Hev; eauto.
-  - apply bind_ok in H as ([x s1] & E1 & H). rewrite (cmp_chain_out _ _ Hev _ _ _ _ _ H). eapply Hev; eauto.
-  - apply bind_ok in H as ([x s1] & E1 & H). apply bind_ok in H as (t & _ & H).
-    destruct t; [rewrite (Hev _ _ _ _ H)|inversion H; subst]; eapply Hev; eauto.
-  - apply bind_ok in H as ([x s1] & E1 & H). apply bind_ok in H as (t & _ & H).
-    destruct t; [inversion H; subst|rewrite (Hev _ _ _ _ H)]; eapply Hev; eauto.
-  - apply bind_ok in H as ([x s1] & E1 & H). apply bind_ok in H as (b & _ & H). pose proof (Hev _ _ _ _ E1) as Ho.
-    destruct b; [rewrite (Hev _ _ _ _ H); auto|]. destruct f as [f|]; [rewrite (Hev _ _ _ _ H); auto|inversion H; subst; auto].
-  - apply bind_ok in H as ([x s1] & E1 & H). apply bind_ok in H as ([k s2] & E2 & H).
-    assert (s' = s2) as ->.
-    { destruct (match x with VList l => match k with VInt z => idx_list l z | _ => None end | _ => None end); [inversion H; auto|].
-      apply bind_ok in H as (w & _ & H). inversion H; auto. }
-    rewrite (Hev _ _ _ _ E2). eapply Hev; eauto.
-  - apply bind_ok in H as ([x s1] & E1 & H).
-    assert (s' = s1) as ->.
-    { destruct (match x with VLoop i n => loop_attr i n attr | _ => None end); [inversion H; auto|].
-      apply bind_ok in H as (w & _ & H). inversion H; auto. }
-    eapply Hev; eauto.
-  - apply bind_ok in H as ([x s1] & E1 & H). apply bind_ok in H as ([vs s2] & E2 & H). apply bind_ok in H as (r & E3 & H). inversion H; subst.
-    rewrite (map_eval_out _ Hev _ _ _ _ E2). eapply Hev; eauto.
-  - apply bind_ok in H as ([x s1] & E1 & H). apply bind_ok in H as ([vs s2] & E2 & H). apply bind_ok in H as (r & E3 & H). inversion H; subst.
-    rewrite (map_eval_out _ Hev _ _ _ _ E2). eapply Hev; eauto.
-  - apply bind_ok in H as ([vs s1] & E1 & H). apply bind_ok in H as ([kvs s2] & E2 & H).
-    destruct (lookup c s2 f) as [fv s3] eqn:El.
-    assert (Ho : s_out s3 = s_out s).
-    { rewrite (lookup_out _ _ _ _ _ El), (map_eval_kw_out _ Hev _ _ _ _ E2). eapply map_eval_out; eauto. }
-    destruct fv as [fv|]; [|discriminate]. destruct fv as [| | |b|z|sf t|l|mc cl|i n|g]; try discriminate.
-    + rewrite (call_macro_out _ _ _ _ _ _ _ _ _ _ H). exact Ho.
-    + destruct (g =? N_range); [|discriminate]. destruct vs as [|[| | |b|z|sf t|l|mc cl|i n|g'] [|? ?]]; try discriminate.
-      destruct kvs; [|discriminate]. inversion H; subst. exact Ho.
-Qed.
-
 (* a macro call yields exactly what its body wrote, marked so that printing reproduces it *)
 Lemma macro_call_value c fuel esc s mc cl args kw v s' :
   call_macro c (S fuel) esc s mc cl args kw = Ok (v, s') ->
@@ -751,29 +779,6 @@ Proof.
   apply bind_ok in E1 as ([sg1 s1'] & E1 & E1'). inversion E1'; subst. clear E1'.
   destruct sg0; try (inversion H; fail). apply bind_ok in H as (v & E2 & H). inversion H; subst.
   exists s1', v. repeat split; auto. apply print_captured.
-Qed.
-
-Lemma enclose_out c s names s' cl : enclose c s names = (s', cl) -> s_out s' = s_out s.
-Proof.
-  unfold enclose. destruct names as [|n0 names0]; [intros H; inversion H; subst; reflexivity|].
-  remember (n0 :: names0) as names eqn:En. clear En n0 names0.
-  destruct (s_env s) as [|f r] eqn:Eenv; [intros H; inversion H; subst; reflexivity|].
-  assert (Hfold : forall id names s1,
-            s_out (fold_left (fun s x =>
-                      match nth_error (s_clos s) id with
-                      | Some cl0 =>
-                          match assoc x cl0 with
-                          | Some _ => s
-                          | None => let '(v, s') := lookup c s x in
-                                    mkSt (s_env s') (set_nth_clos id (assoc_set x (match v with Some v => v | None => VUndef end)) (s_clos s'))
-                                         (s_out s') (s_asks s')
-                          end
-                      | None => s
-                      end) names s1) = s_out s1).
-  { intros id nms. induction nms as [|x nms IH]; intros s1; cbn [fold_left]; [reflexivity|]. rewrite IH.
-    destruct (nth_error (s_clos s1) id) as [cl0|]; [|reflexivity]. destruct (assoc x cl0); [reflexivity|].
-    destruct (lookup c s1 x) as [v s2] eqn:El. cbn [s_out]. eapply lookup_out; eauto. }
-  destruct (f_closure f) as [id|]; intros H; inversion H; subst; rewrite Hfold; reflexivity.
 Qed.
 
 Lemma call_block_emits c fuel esc s mn args body sg s' :
